@@ -57,6 +57,8 @@ class World:
         self.INTPARSE = {}
         self.hooks = {}          # customisation points set by contracts
         self.elem_kinds = {}     # typed symbolic lists: kind -> (wrap(it, z), unwrap(it, v) -> z | None)
+        self.builtin_classes["file"].methods["read"] = Builtin("file.read", lambda it, a, k, n: a[0].fields.get("_content", ""))
+        self.builtin_classes["file"].methods["close"] = Builtin("file.close", lambda it, a, k, n: None)
         self.builtins = self._make_builtins()
         self._loading = set()
         self.boot = Interp(self, Path([], Results()), {"target": "<module-init>"})
@@ -715,6 +717,8 @@ class World:
         return B
 
     def _isinstance1(self, it, v, cl, n):
+        if isinstance(cl, Builtin) and cl.name in self.builtin_classes:
+            cl = self.builtin_classes[cl.name]
         if not isinstance(cl, PyClass):
             it.guard(False, "TypeError", n, "isinstance() arg 2 must be a type")
         if isinstance(v, Obj):
@@ -1088,7 +1092,7 @@ class World:
                 if d.is_sym():
                     kt = self.key_term(it, d, a[0], n)
                     if it.path.branch(z3.Select(d.sym_dom, kt)):
-                        return SElem(z3.Select(d.sym_val, kt), "val")
+                        return SElem(z3.Select(d.sym_val, kt), getattr(d, "val_sort", "val"))
                     return a[1] if len(a) > 1 else None
                 ent = it.dict_find(d, a[0], n)
                 if ent is None:
